@@ -80,10 +80,37 @@ def make_case(rng):
     return case
 
 
+def make_incremental_case(rng):
+    """A network grown on one object: the first reactions, the element list read once (as any report does), then a file of further reactions that
+    bring a new element with its atom.  The renormalisation generated afterwards covers the new element like any other."""
+    M = chem.make_species
+    new_el = rng.choice(["O", "N", "S"])
+    sp = [M([("H", 1)]), M([("H", 2)]), M([("C", 1)]), M([("C", 1), ("H", 1)]), M([(new_el, 1)]), M([("C", 1), (new_el, 1)]), M([(new_el, 1), ("H", 1)])]
+    n = [x["name"] for x in sp]
+    reacs = [{"reactants": [n[2], n[0]], "products": [n[3]]}, {"reactants": [n[3], n[0]], "products": [n[2], n[1]]}, {"reactants": [n[0], n[0]], "products": [n[1]]},
+             {"reactants": [n[2], n[4]], "products": [n[5]]}, {"reactants": [n[4], n[1]], "products": [n[6], n[0]]}, {"reactants": [n[6], n[2]], "products": [n[5], n[0]]}]
+    for i, r in enumerate(reacs):
+        r.update(idx=i + 1, pseudo=None)
+    net = {"species": sp, "reactions": reacs}
+    case = {"net": net, "spelling": None, "required_atoms": [], "grains": False, "element_without_atom": None, "alphas": chem.distinct_alphas(rng, len(reacs) + 2), "entry": "api",
+            "incremental": 3}
+    nsp, ne = len(sp), 3
+    pts = []
+    for i in range(8):
+        scale = 10 ** rng.uniform(-15, 15)
+        pts.append({"y": [scale * 10 ** rng.uniform(-3, 3) for _ in range(nsp)], "yref": [10 ** rng.uniform(-3, 3) for _ in range(nsp)],
+                    "mode": ["opt1", "opt0", "identity", "opt1", "opt0", "identity0", "opt1", "opt0"][i % 8], "eref": [10 ** rng.uniform(-4, 0) for _ in range(ne + 1)]})
+    case["points"] = pts
+    return case
+
+
 def gen_cases(tier):
     rng = common.rng_for(ID)
     n = 30 if tier == "quick" else 400
-    return [make_case(random.Random(rng.getrandbits(64))) for _ in range(n)]
+    cases = [make_case(random.Random(rng.getrandbits(64))) for _ in range(n)]
+    for _ in range(2 if tier == "quick" else 20):
+        cases.append(make_incremental_case(random.Random(rng.getrandbits(64))))
+    return cases
 
 
 def build_net(case, work):
@@ -105,6 +132,16 @@ def build_net(case, work):
         rl.append(Reaction(["H+", "GRAIN-"], ["H", "GRAIN0"], alpha=1.0, reaction_type=RT.GAS_TWOBODY))
         rl.append(Reaction(["e-", "GRAIN0"], ["GRAIN-"], alpha=1.0, reaction_type=RT.GAS_TWOBODY))
         rl.append(Reaction(["H+", "GRAIN0"], ["H", "GRAIN+"], alpha=1.0, reaction_type=RT.GAS_TWOBODY))
+    if case.get("incremental"):
+        from ..gen import encode
+        k = case["incremental"]
+        net = Network(rl[:k], **kw)
+        _ = [e.name for e in net.elements]                      # the element list is read once before the network grows
+        f = work / "more.naunet"
+        f.write_text("\n".join(encode.naunet_line(dict(r, alpha=a, beta=0.0, gamma=0.0, tmin=-1.0, tmax=-1.0, type=100))
+                                for r, a in list(zip(case["net"]["reactions"], case["alphas"]))[k:]) + "\n")
+        net.add_reaction_from_file(str(f), "naunet")
+        return net
     return Network(rl, required_species=case["required_atoms"] or None, **kw)
 
 
@@ -126,6 +163,8 @@ def run_case(case, ctx):
         tags.add("element_without_atom")
     if case.get("spelling"):
         tags.add("upper_case_without_replacement")
+    if case.get("incremental"):
+        tags.add("grown_after_element_list_was_read")
     if any(s["surface"] for s in species):
         tags.add("ice_species")
     if any("D" in s["comp"] for s in species):
@@ -149,6 +188,14 @@ def run_case(case, ctx):
             continue
         mac = lab.parse_macros(proj)
         n, ne = mac["NSPECIES"], mac["NELEMENTS"]
+        # every element that has its atomic species in the network is renormalised (independent of how the network object was built up)
+        want_el = {next(iter(sp["comp"])) for sp in species if not sp["electron"] and not sp["surface"] and sp["charge"] == 0 and not sp["label"]
+                   and len(sp["comp"]) == 1 and sum(sp["comp"].values()) == 1}
+        obs["element_sets_checked"] += 1
+        if set(mac["ELEM"]) != want_el:
+            viol.append(violation("renormalised_elements_differ", f"{be}: the generated code renormalises {sorted(mac['ELEM'])}, the network has atomic species of "
+                                  f"{sorted(want_el)}"))
+            continue
         if "H" not in mac["ELEM"]:
             return {"status": "inconclusive", "violations": [], "obs": dict(obs), "lost": "no H element"}
         idx = {k: int(v) for k, v in mac["IDX"].items() if str(v).isdigit()}
